@@ -72,7 +72,7 @@ func (e *Exec) btcType(name string) types.Type {
 	return types.NewPointer(errDynType)
 }
 
-var addrTypeNames = []string{"AddressPubKeyHash", "AddressScriptHash", "AddressWitnessPubKeyHash", "AddressWitnessScriptHash", "AddressTaproot", "AddressPubKey"}
+var addrTypeNames = []string{"AddressPubKeyHash", "AddressScriptHash", "AddressWitnessPubKeyHash", "AddressWitnessScriptHash", "AddressTaproot", "AddressPubKey", "", "AddressPubKey", "AddressPubKey"}
 
 func (e *Exec) addrIface(a *btcAddr) IfaceV {
 	return IfaceV{T: e.btcType(addrTypeNames[a.kind]), V: OpaqueV{Kind: "btcaddr", Data: a}}
@@ -92,6 +92,8 @@ func addrScript(a *btcAddr) []*Term {
 		return append(constBytes(0x51, 0x20), a.prog...)
 	case 5:
 		return append(append(constBytes(0x21), a.prog...), constBytes(0xac)...)
+	case 7, 8: // uncompressed / hybrid key: OP_DATA_65 <key> OP_CHECKSIG
+		return append(append(constBytes(0x41), a.prog...), constBytes(0xac)...)
 	}
 	return nil
 }
@@ -255,12 +257,17 @@ func init() {
 	const BU = "github.com/btcsuite/btcd/btcutil"
 	I[vrtKey("BtcAddr")] = func(e *Exec, fn *ssa.Function, a []Value) Value {
 		kind := e.concreteInt(a[1], "address kind")
-		if kind < 0 || kind > 5 {
+		if kind < 0 || kind == 6 || kind > 8 {
 			return StrV{S: "this-is-not-a-bitcoin-address"}
 		}
 		prog := sliceTerms(a[2])
-		if kind == 5 {
+		switch kind {
+		case 5:
 			prog = mkToken(33, 0x02, 0xEC, 1)
+		case 7:
+			prog = mkToken(65, 0x04, 0xEC, 1)
+		case 8:
+			prog = mkToken(65, 0x06, 0xEC, 1)
 		}
 		fn_ := a[3].(*Term)
 		if !fn_.IsConst() {
